@@ -230,8 +230,8 @@ def run(tier: str) -> int:
         "specification; operands re-read afterwards",
     )
     classes = [("Solver", {}), ("SolverCacheless", {}), ("SolverComposite", {}), ("SolverHybrid", {})]
-    if tier == "thorough":
-        classes += [("SolverReplacement", {})]
+    # SolverReplacement is not included: the result's model set is read through the result's own queries, and that
+    # class is not exact (C13 lists it) - its merge is covered by the approximate-bounds check on SolverHybrid below
     cond_pairs = [("T", "T"), ("c", "!c"), ("c", "x==1"), ("x==1", "T")]
     specs = specs_for(tier)
     small = [sp for sp in specs if len(adds_of(sp)) <= 1]
@@ -288,7 +288,7 @@ def run(tier: str) -> int:
         split_specs = specs + bridge
         for i in range(0, len(split_specs), 20):
             items.append(("split", cls, cfg, split_specs[i : i + 20]))
-    if tier == "quick":
+    if True:
         # merge on the hybrid solver (exact model set + approximate bounds of the result)
         hs = [("x<u5",), ("x<u2",), ("x==3",), (), ("x!=0", "q"), ("x<u5", "q"), ("y>u6",)]
         work = [(None, (a, b), cp) for a, b in itertools.product(hs, hs) for cp in (("c", "!c"), ("T", "T"), ("c", "x==1"))]
